@@ -9,8 +9,15 @@ producers, consumers of a parameter, edges), never over positions.
 
 `Mutex` / `Ordered` mirror the code's notions (`_conflict.py`), they are not an independent
 semantic definition of "cannot both run": `Mutex b a c` = some exclusive gate (route without
-`multi_target`, or if/else) has two different targets that are nodes, `a` reachable in the built graph
-from the one target and from no other target of that gate, `c` likewise from the other;
+`multi_target`, or if/else) has two different targets that are nodes, `a` in the branch of the one and `c`
+in the branch of the other.  The branch of a target `t` of the gate `g` (`InBranch`) is empty when a gate
+other than `g` also routes to `t`; otherwise it is the least set holding `t` and every node reachable in
+the built graph from `t` and from no other target of `g` that NEEDS the set: a parameter without a default
+of its own whose producers all lie in the set, an awaited signal emitted only in the set, or all the gates
+routing to it in the set (`inBranch_root_sole_controller`, `inBranch_needs`).  Before the repair "two
+producers of one name are exclusive only if neither can run without its branch" the branch was every node
+reachable from `t` only (`MutexReach`; `shared_target_not_mutex_witness`, `default_fed_not_mutex_witness`,
+`mutex_was_mutex`, `loop_back_branches_now_mutex_witness`);
 `Ordered b o a c` = a directed path between `a` and `c` (either direction) in the declared graph
 (explicit edges) resp. in the graph of control edges, ordering edges and data edges carrying a value
 not contested among the producers of `o` (auto-inference).  `Reach` is the inductive
@@ -23,8 +30,12 @@ Statements that had to follow the code rather than the English of the property:
   typing skips ordering edges" `_validate_types` did not look at the edge type and every valid strict
   graph with an `emit`/`wait_for` pair was rejected (`strict_wait_for_witness`,
   `strict_waitfor_rejected` below: the pre-repair check `chkTypesAllEdges` against the repaired model);
-* only the FIRST producer of a name gets a data edge, so in strict mode the annotation of a second
-  (mutually exclusive) producer is never compared (`strict_second_producer_unchecked`);
+* only the FIRST-listed producer of a name gets a data edge; the type clause therefore has a second half
+  (`WellFormed.typedAllProducers`): every OTHER node producing the value as data is annotated compatibly
+  with the edge's target too.  Before the repair "strict_types checks every producer of a value against its
+  consumer" the annotation of a second (mutually exclusive) producer was never compared and acceptance
+  depended on the order of the node list (`strict_second_producer_witness`: the pre-repair check
+  `chkTypesFirstProducer` against the repaired model; `flaw_type_mismatch_any_producer`);
 * the NAME of a graph node is exempt from the identifier rule (it follows the graph-name rule); its
   OUTPUT names are not — before the repair "output names of a nested graph are validated" they were
   skipped together with the name (`graph_node_output_name_witness`, `graph_node_output_names_unchecked`:
@@ -57,6 +68,14 @@ theorem typed_data_edges (b : BuildInput) (h : buildGraph b = .ok ()) (hs : b.st
     (he : e ∈ graphEdges b) (hk : e.kind = .data) (v : Name) (hv : v ∈ e.values) :
     ∃ to ti, outType b e.src v = some to ∧ inType b e.dst v = some ti ∧ compat to ti = true :=
   (sound b h).typed hs e he (by rw [hk]; decide) v hv
+
+/-- … and so is every other node `p` that produces the value as data: any of the (exclusive or ordered)
+producers of a name can deliver it to the consumer, the built graph only links the first-listed one -/
+theorem typed_other_producers (b : BuildInput) (h : buildGraph b = .ok ()) (hs : b.strict = true) (e : Edge)
+    (he : e ∈ graphEdges b) (hk : e.kind = .data) (v : Name) (hv : v ∈ e.values) (p : NodeD) (hp : p ∈ b.nodes)
+    (hpv : v ∈ p.dataOuts) (h1 : p.name ≠ e.src) (h2 : p.name ≠ e.dst) :
+    ∃ to ti, outType b p.name v = some to ∧ inType b e.dst v = some ti ∧ compat to ti = true :=
+  (sound b h).typedAllProducers hs e he (by rw [hk]; decide) v hv p hp hpv h1 h2
 
 /-- the fuel-bounded reachability used for `Mutex` / `Ordered` is the reflexive-transitive closure -/
 theorem reaches_iff_reach (V : List Name) (adj : Name → Name → Bool) (a c : Name) :
@@ -267,6 +286,52 @@ theorem flaw_missing_annotation_consumer (b : BuildInput) (hs : b.strict = true)
   obtain ⟨e, he, hk, h1, h2, h3⟩ := graphEdges_hasVal_auto hx hnd hp hsrc
   exact flaw_missing_annotation b hs e he (by rw [hk]; decide) p h3 (h1 ▸ h2 ▸ hmiss)
 
+/-- strict mode, ANY non-ordering edge, ANY value on it, ANY OTHER node `p` producing that value as data
+(not the edge's source — that is `flaw_type_mismatch` / `flaw_missing_annotation` — nor its target): `p`
+not annotated compatibly with the target's parameter (a missing annotation on either side, or an
+incompatible pair) -/
+theorem flaw_type_mismatch_any_producer (b : BuildInput) (hs : b.strict = true) (e : Edge)
+    (he : e ∈ graphEdges b) (hk : e.kind ≠ .ordering) (v : Name) (hv : v ∈ e.values) (p : NodeD)
+    (hp : p ∈ b.nodes) (hpv : v ∈ p.dataOuts) (h1 : p.name ≠ e.src) (h2 : p.name ≠ e.dst)
+    (hbad : ¬ TypedTriple b p.name e.dst v) : buildGraph b ≠ .ok () :=
+  fun h => hbad ((sound b h).typedAllProducers hs e he hk v hv p hp hpv h1 h2)
+
+/-- … with the incompatible annotations named -/
+theorem flaw_type_mismatch_other_producer (b : BuildInput) (hs : b.strict = true) (e : Edge)
+    (he : e ∈ graphEdges b) (hk : e.kind ≠ .ordering) (v : Name) (hv : v ∈ e.values) (p : NodeD)
+    (hp : p ∈ b.nodes) (hpv : v ∈ p.dataOuts) (h1 : p.name ≠ e.src) (h2 : p.name ≠ e.dst) (to ti : Ty)
+    (ho : outType b p.name v = some to) (hi : inType b e.dst v = some ti) (hc : compat to ti = false) :
+    buildGraph b ≠ .ok () :=
+  flaw_type_mismatch_any_producer b hs e he hk v hv p hp hpv h1 h2 (by
+    rintro ⟨to', ti', ho', hi', hc'⟩
+    rw [ho] at ho'; rw [hi] at hi'
+    cases ho'; cases hi'
+    rw [hc] at hc'; cases hc')
+
+/-- the same in the vocabulary of nodes (auto-inference mode), WHEREVER the producer is listed: ANY
+consumer `nd` of a parameter `q` and ANY other node `s` producing `q` as data, not annotated compatibly
+with it.  (The first-listed producer is the source of the data edge, every other one falls under
+`typedAllProducers`: acceptance does not depend on which of them comes first.) -/
+theorem flaw_type_mismatch_any_producer_consumer (b : BuildInput) (hs : b.strict = true)
+    (hx : b.explicitEdges = none) (nd : NodeD) (hnd : nd ∈ b.nodes) (q : Name) (hq : q ∈ nd.inputs)
+    (s : NodeD) (hsn : s ∈ b.nodes) (hsq : q ∈ s.dataOuts) (hne : s.name ≠ nd.name)
+    (hbad : ¬ TypedTriple b s.name nd.name q) : buildGraph b ≠ .ok () := by
+  intro h
+  have hmem : s.name ∈ sourcesOf b.nodes q :=
+    mem_sourcesOf.mpr ⟨s, hsn, rfl, List.mem_append_left _ hsq⟩
+  obtain ⟨f, hf⟩ : ∃ f, firstSource b.nodes q = some f := by
+    unfold firstSource
+    cases hl : sourcesOf b.nodes q with
+    | nil => rw [hl] at hmem; cases hmem
+    | cons x xs => exact ⟨x, rfl⟩
+  obtain ⟨e, he, hk, h1, h2, h3⟩ := graphEdges_hasVal_auto hx hnd hq hf
+  have hk' : e.kind ≠ .ordering := by rw [hk]; decide
+  by_cases hsf : s.name = e.src
+  · have := (sound b h).typed hs e he hk' q h3
+    exact hbad (by rw [hsf, ← h2]; exact this)
+  · have := (sound b h).typedAllProducers hs e he hk' q h3 s hsn hsq hsf (by rw [h2]; exact hne)
+    exact hbad (by rw [← h2]; exact this)
+
 /-! ## 4. the repaired graph is accepted -/
 
 /-- whatever the flaw was: once the description satisfies the specification it is accepted -/
@@ -292,11 +357,7 @@ theorem wellFormed_runs (b : BuildInput) (w : WellFormed b) : ∃ g : Built, g.i
 example : buildGraph exGood = .ok () := buildGraph_ok_of_simple (by decide)
 /-- … hence well-formed, and its two producers of `r` are `Mutex` (not merely `Ordered`) -/
 example : WellFormed exGood := sound exGood (buildGraph_ok_of_simple (by decide))
-example : Mutex exGood "left" "right" := by
-  have h : isPairMutex (expandedGroups exGood.nodes (nodeNames exGood)
-      (rowsAdj (adjRows (nodeNames exGood) (hasEdge (graphEdges exGood))))) "left" "right" = true := by decide
-  obtain ⟨g, hg, he, hm⟩ := isPairMutex_expandedGroups.mp h
-  exact ⟨g, hg, he, mutexVia_rows.mp hm⟩
+example : Mutex exGood "left" "right" := (isPairMutex_groups_iff "left" "right").mp (by decide)
 example : Produces exGood "left" "r" ∧ Produces exGood "right" "r" :=
   ⟨⟨exLeft, by simp [exGood], rfl, by decide⟩, ⟨exRight, by simp [exGood], rfl, by decide⟩⟩
 example : (⟨exGood, buildGraph_ok_of_simple (by decide)⟩ : Built).input = exGood := rfl
@@ -329,9 +390,12 @@ example : buildGraph exTypeMismatch = .error (.typeMismatch "left" "sink" "r") :
       [⟨"src", "decide", .data, ["a"]⟩, ⟨"src", "left", .data, ["a"]⟩, ⟨"src", "right", .data, ["a"]⟩,
        ⟨"decide", "left", .control, []⟩, ⟨"decide", "right", .control, []⟩, ⟨"left", "sink", .data, ["r"]⟩] := rfl
   have hT : chkTypes exTypeMismatch = some (.typeMismatch "left" "sink" "r") := by
+    have hA : dataSourcesOf exTypeMismatch.nodes "a" = ["src"] := by decide
+    have hR : dataSourcesOf exTypeMismatch.nodes "r" = ["left", "right"] := by decide
     unfold chkTypes
     rw [hE]
-    simp [exTypeMismatch, exGood, chkTypesEdge, outType, inType, exOutTypes, AL.get?,
+    simp only [List.findSome?_cons, List.findSome?_nil, chkTypesEdgeProducers, typeSourcesFor, hA, hR]
+    simp [chkTypesTriple, exTypeMismatch, exGood, outType, inType, exOutTypes, AL.get?,
       compat_of_clsEq (t := .cls "int") (u := .cls "int") rfl, compat_int_str]
   rw [buildGraph_of_untyped (by decide), hT]
 example : buildGraph exMissingAnnotation = .error (.missingInputAnnotation "sink" "r") := by
@@ -339,9 +403,12 @@ example : buildGraph exMissingAnnotation = .error (.missingInputAnnotation "sink
       [⟨"src", "decide", .data, ["a"]⟩, ⟨"src", "left", .data, ["a"]⟩, ⟨"src", "right", .data, ["a"]⟩,
        ⟨"decide", "left", .control, []⟩, ⟨"decide", "right", .control, []⟩, ⟨"left", "sink", .data, ["r"]⟩] := rfl
   have hT : chkTypes exMissingAnnotation = some (.missingInputAnnotation "sink" "r") := by
+    have hA : dataSourcesOf exMissingAnnotation.nodes "a" = ["src"] := by decide
+    have hR : dataSourcesOf exMissingAnnotation.nodes "r" = ["left", "right"] := by decide
     unfold chkTypes
     rw [hE]
-    simp [exMissingAnnotation, exGood, chkTypesEdge, outType, inType, exOutTypes, AL.get?,
+    simp only [List.findSome?_cons, List.findSome?_nil, chkTypesEdgeProducers, typeSourcesFor, hA, hR]
+    simp [chkTypesTriple, exMissingAnnotation, exGood, outType, inType, exOutTypes, AL.get?,
       compat_of_clsEq (t := .cls "int") (u := .cls "int") rfl]
   rw [buildGraph_of_untyped (by decide), hT]
 example : buildGraph exGraphName = .error (.graphName "pipe.line") := by decide
@@ -401,16 +468,88 @@ theorem strict_wait_for_witness :
   have hok : buildGraph b = .ok () := buildGraph_ok_of_simple (by decide)
   exact ⟨rfl, hok, (classify_ok_iff b).mpr (sound b hok), by decide, by decide, by decide⟩
 
-/-- the repair "strict typing skips ordering edges" never turns an accepted graph into a rejected one -/
+/-- the repair "strict typing skips ordering edges" never turned an accepted graph into a rejected one:
+what the all-edges constructor accepted, the constructor it was repaired into (`buildGraphFirstProducer`)
+accepted.  (Against the PRESENT constructor that is false — the later repair "strict_types checks every
+producer of a value against its consumer" rejects `exSecondStr`, which has no ordering edge and which both
+earlier constructors accepted: `strict_second_producer_witness`.) -/
 theorem allEdges_accepted_still_accepted (b : BuildInput) (h : buildGraphAllEdges b = .ok ()) :
-    buildGraph b = .ok () := buildGraph_ok_of_allEdges h
+    buildGraphFirstProducer b = .ok () := buildGraphFirstProducer_ok_of_allEdges h
 
-/-- strict mode does not look at the second of two exclusive producers: `right` returns `str` into
-`sink(r : int)` and the graph is accepted -/
-theorem strict_second_producer_unchecked :
-    buildGraph { exGood with outTypes := [("src", [("a", .cls "int")]), ("left", [("r", .cls "int")]),
-      ("right", [("r", .cls "str")]), ("sink", [("out", .cls "int")])] } = .ok () :=
-  buildGraph_ok_of_simple (by decide)
+theorem chkTypes_exSecondStr : chkTypes exSecondStr = some (.typeMismatch "right" "sink" "r") := by
+  have hE : nxOrder exSecondStr.nodes (graphEdges exSecondStr) =
+      [⟨"src", "decide", .data, ["a"]⟩, ⟨"src", "left", .data, ["a"]⟩, ⟨"src", "right", .data, ["a"]⟩,
+       ⟨"decide", "left", .control, []⟩, ⟨"decide", "right", .control, []⟩, ⟨"left", "sink", .data, ["r"]⟩] := rfl
+  have hA : dataSourcesOf exSecondStr.nodes "a" = ["src"] := by decide
+  have hR : dataSourcesOf exSecondStr.nodes "r" = ["left", "right"] := by decide
+  unfold chkTypes
+  rw [hE]
+  simp only [List.findSome?_cons, List.findSome?_nil, chkTypesEdgeProducers, typeSourcesFor, hA, hR]
+  simp [chkTypesTriple, exSecondStr, exStrOut, exGood, exInTypes, outType, inType, AL.get?,
+    compat_of_clsEq (t := .cls "int") (u := .cls "int") rfl, compat_str_int]
+
+theorem chkTypes_exSecondStrSwapped :
+    chkTypes exSecondStrSwapped = some (.typeMismatch "right" "sink" "r") ∧
+      chkTypesFirstProducer exSecondStrSwapped = some (.typeMismatch "right" "sink" "r") := by
+  have hE : nxOrder exSecondStrSwapped.nodes (graphEdges exSecondStrSwapped) =
+      [⟨"src", "decide", .data, ["a"]⟩, ⟨"src", "right", .data, ["a"]⟩, ⟨"src", "left", .data, ["a"]⟩,
+       ⟨"decide", "left", .control, []⟩, ⟨"decide", "right", .control, []⟩, ⟨"right", "sink", .data, ["r"]⟩] := rfl
+  have hA : dataSourcesOf exSecondStrSwapped.nodes "a" = ["src"] := by decide
+  have hR : dataSourcesOf exSecondStrSwapped.nodes "r" = ["right", "left"] := by decide
+  constructor
+  · unfold chkTypes
+    rw [hE]
+    simp only [List.findSome?_cons, List.findSome?_nil, chkTypesEdgeProducers, typeSourcesFor, hA, hR]
+    simp [chkTypesTriple, exSecondStrSwapped, exSecondStr, exStrOut, exGood, exInTypes, outType, inType, AL.get?,
+      compat_of_clsEq (t := .cls "int") (u := .cls "int") rfl, compat_str_int]
+  · unfold chkTypesFirstProducer
+    rw [hE]
+    simp only [List.findSome?_cons, List.findSome?_nil, chkTypesEdge]
+    simp [chkTypesTriple, exSecondStrSwapped, exSecondStr, exStrOut, exGood, exInTypes, outType, inType, AL.get?,
+      compat_of_clsEq (t := .cls "int") (u := .cls "int") rfl, compat_str_int]
+
+/-- known as the defect repaired by the fix "strict_types checks every producer of a value against its
+consumer".  `exSecondStr` is the five-node strict graph with `right` — the SECOND-listed of the two
+exclusive producers of `r` — annotated `-> str`, the consumer being `sink(r : int)`.  The built graph has a
+data edge `left → sink` only; the pre-repair type check (`chkTypesFirstProducer`, constructor
+`buildGraphFirstProducer`) followed the data edges and accepted the graph, although `right` delivers a
+`str` whenever the gate picks it.  With `right` listed first (`exSecondStrSwapped`) the very same graph
+was rejected: acceptance depended on the order of the node list.  The repaired constructor checks every
+data producer of `r` against `sink` and rejects both with the class of a type mismatch.
+(Not `by decide`: `compat` is defined by well-founded recursion; the pieces that are kernel-evaluable are.) -/
+theorem strict_second_producer_witness :
+    buildGraphFirstProducer exSecondStr = .ok () ∧ classifyFirstProducer exSecondStr = "ok" ∧
+      buildGraph exSecondStr = .error (.typeMismatch "right" "sink" "r") ∧
+      classify exSecondStr = "type_mismatch" ∧
+      buildGraphFirstProducer exSecondStrSwapped = .error (.typeMismatch "right" "sink" "r") ∧
+      buildGraph exSecondStrSwapped = .error (.typeMismatch "right" "sink" "r") := by
+  have h1 : buildGraphFirstProducer exSecondStr = .ok () := buildGraphFirstProducer_ok_of_simple (by decide)
+  have h2 : buildGraph exSecondStr = .error (.typeMismatch "right" "sink" "r") := by
+    rw [buildGraph_of_untyped (by decide), chkTypes_exSecondStr]
+  have h3 : buildGraphFirstProducer exSecondStrSwapped = .error (.typeMismatch "right" "sink" "r") := by
+    rw [buildGraphFirstProducer_of_untyped (by decide), chkTypes_exSecondStrSwapped.2]
+  have h4 : buildGraph exSecondStrSwapped = .error (.typeMismatch "right" "sink" "r") := by
+    rw [buildGraph_of_untyped (by decide), chkTypes_exSecondStrSwapped.1]
+  refine ⟨h1, ?_, h2, ?_, h3, h4⟩
+  · unfold classifyFirstProducer; rw [h1]
+  · unfold classify; rw [h2]; rfl
+
+/-- the flaw theorem applies to it (hypotheses satisfiable): `right` is another data producer of the value
+`r` on the edge `left → sink` -/
+theorem strict_second_producer_flaw : buildGraph exSecondStr ≠ .ok () :=
+  flaw_type_mismatch_other_producer exSecondStr rfl ⟨"left", "sink", .data, ["r"]⟩
+    (mem_nxOrder.mp (by
+      have hE : nxOrder exSecondStr.nodes (graphEdges exSecondStr) =
+          [⟨"src", "decide", .data, ["a"]⟩, ⟨"src", "left", .data, ["a"]⟩, ⟨"src", "right", .data, ["a"]⟩,
+           ⟨"decide", "left", .control, []⟩, ⟨"decide", "right", .control, []⟩,
+           ⟨"left", "sink", .data, ["r"]⟩] := rfl
+      rw [hE]; simp)) (by decide)
+    "r" (by decide) exRight (by simp [exSecondStr, exGood]) (by decide) (by decide) (by decide)
+    (.cls "str") (.cls "int") rfl rfl compat_str_int
+
+/-- the repair never accepts a graph the pre-repair constructor rejected -/
+theorem accepted_was_accepted_firstProducer (b : BuildInput) (h : buildGraph b = .ok ()) :
+    buildGraphFirstProducer b = .ok () := buildGraphFirstProducer_ok_of h
 
 /-- BEFORE the repair "output names of a nested graph are validated" the identifier rule skipped graph
 nodes together with their outputs (`chkIdentifiersSkipGraph`, constructor `buildGraphSkipGraph`); the repaired rule still exempts the NAME
@@ -464,6 +603,141 @@ theorem duplicate_output_name_witness :
 /-- the repair never accepts a graph the pre-repair constructor rejected -/
 theorem accepted_was_accepted_dupOutputs (b : BuildInput) (h : buildGraph b = .ok ()) :
     buildGraphDupOutputs b = .ok () := buildGraphDupOutputs_ok_of h
+
+/-! ## the repair "two producers of one name are exclusive only if neither can run without its branch" -/
+
+/-- what the specification means at the target itself: the branch of `t` is non-empty only if no gate
+other than `gate` routes to `t` (a target shared with another gate runs whenever THAT gate picks it) -/
+theorem inBranch_root_sole_controller {nodes : List NodeD} {V : List Name} {adj : Name → Name → Bool}
+    {T : List Name} {gate t : Name} (h : InBranch nodes V adj T gate t t) :
+    ∀ g ∈ nodes, g.isGate = true → t ∈ g.targetNames → g.name = gate := h.sole
+
+/-- … and that holds for every member, not only for the target -/
+theorem inBranch_sole_controller {nodes : List NodeD} {V : List Name} {adj : Name → Name → Bool}
+    {T : List Name} {gate t m : Name} (h : InBranch nodes V adj T gate t m) :
+    ∀ g ∈ nodes, g.isGate = true → t ∈ g.targetNames → g.name = gate := h.sole
+
+/-- what the specification means below the target: a member `m ≠ t` of the branch is reachable from `t`
+and from no other target, and needs the branch — (a) a parameter of `m` without a default of its own has
+producers, all in the branch; or (b) a signal `m` waits for has producers, all in the branch; or (c) some
+gate routes to `m` and every gate routing to `m` is in the branch -/
+theorem inBranch_needs {nodes : List NodeD} {V : List Name} {adj : Name → Name → Bool}
+    {T : List Name} {gate t m : Name} (h : InBranch nodes V adj T gate t m) (hne : m ≠ t) :
+    Excl V adj T t m ∧
+      ((∃ nd ∈ nodes, nd.name = m ∧ ∃ p ∈ nd.inputs, p ∉ nd.hasDefault ∧ sourcesOf nodes p ≠ [] ∧
+          ∀ s ∈ sourcesOf nodes p, InBranch nodes V adj T gate t s) ∨
+        (∃ nd ∈ nodes, nd.name = m ∧ ∃ w ∈ nd.waitFor, sourcesOf nodes w ≠ [] ∧
+          ∀ s ∈ sourcesOf nodes w, InBranch nodes V adj T gate t s) ∨
+        (controllersOf nodes m ≠ [] ∧ ∀ c ∈ controllersOf nodes m, InBranch nodes V adj T gate t c)) :=
+  h.needs.resolve_left hne
+
+/-- conversely the branch is closed under that rule (with `inBranch_needs`: it is the least such set) -/
+theorem inBranch_closed {nodes : List NodeD} {V : List Name} {adj : Name → Name → Bool}
+    {T : List Name} {gate t m : Name} (he : Excl V adj T t m)
+    (hn : NeedsBranch nodes (InBranch nodes V adj T gate t) m) : InBranch nodes V adj T gate t m :=
+  .step he hn
+
+/-- the executable branch sets (`branchOf`, `|candidates|` rounds) are the declarative ones -/
+theorem branchOf_iff_inBranch (nodes : List NodeD) (V : List Name) (adj : Name → Name → Bool) (T : List Name)
+    (gate t m : Name) : m ∈ branchOf nodes gate t (candOf V adj T t) ↔ InBranch nodes V adj T gate t m :=
+  mem_branchOf_iff fun _ => mem_candOf
+
+/-- every member of a repaired branch is the target itself or a member of the pre-repair branch -/
+theorem inBranch_root_or_excl {nodes : List NodeD} {V : List Name} {adj : Name → Name → Bool}
+    {T : List Name} {gate t m : Name} (h : InBranch nodes V adj T gate t m) : m = t ∨ Excl V adj T t m :=
+  h.root_or_excl
+
+/-- the repaired rule calls no more pairs exclusive than the pre-repair one — on graphs where no target of
+an exclusive gate is reachable from a sibling target (`TargetsApart`).  The hypothesis cannot be dropped:
+`_dependent_on_branch` starts from `{target}` even when the target lies below a sibling target, where the
+pre-repair rule counted it out (`loop_back_branches_now_mutex_witness`). -/
+theorem mutex_was_mutex (b : BuildInput) (hap : TargetsApart b) (a c : Name) (h : Mutex b a c) :
+    MutexReach b a c := h.mutexReach hap
+
+/-- … so on those graphs the repair never accepts a graph the pre-repair constructor rejected -/
+theorem accepted_was_accepted_mutexReach (b : BuildInput) (hap : TargetsApart b) (h : buildGraph b = .ok ()) :
+    buildGraphMutexReach b = .ok () := buildGraphMutexReach_ok_of hap h
+
+/-- known as the defect repaired by the fix "two producers of one name are exclusive only if neither can
+run without its branch", first shape: a target shared by two gates.  `g1` routes to `n6` or `n3`, `g25`
+routes to `n6` or ends; `n3 → v5 → n8 → v10`, `n6 → v7 → n21 → v10`.  `n8` and `n21` are reachable from one
+target of `g1` each, the pre-repair rule called them exclusive and the pre-repair constructor accepted the
+graph — but `g25` can start `n6` (hence `n21`) in a run where `g1` chose `n3` (hence `n8`).  The repaired
+rule gives `n6` an empty branch under `g1` and under `g25`; the constructor rejects the graph with the
+class of two producers of one name. -/
+theorem shared_target_not_mutex_witness :
+    let g1 : NodeD := { mkNode "g1" .ifelse ["c1"] [] with targets := [.node "n6", .node "n3"] }
+    let g25 : NodeD := { mkNode "g25" .ifelse ["c2"] [] with targets := [.node "n6", .end_] }
+    let b : BuildInput :=
+      { nodes := [g1, g25, mkNode "n3" .fn ["x"] ["v5"], mkNode "n6" .fn ["y"] ["v7"],
+          mkNode "n8" .fn ["v5"] ["v10"], mkNode "n21" .fn ["v7"] ["v10"]] }
+    let adj := rowsAdj (adjRows (nodeNames b) (hasEdge (graphEdges b)))
+    isPairMutex (expandedGroupsReach b.nodes (nodeNames b) adj) "n8" "n21" = true ∧
+      buildGraphMutexReach b = .ok () ∧ classifyMutexReach b = "ok" ∧
+      isPairMutex (expandedGroups b.nodes (nodeNames b) adj) "n8" "n21" = false ∧
+      buildGraph b = .error (.outputConflict "v10" "n8" "n21") ∧ classify b = "output_conflict" := by
+  decide
+
+/-- the same in the vocabulary of the specification -/
+theorem shared_target_not_mutex_spec :
+    let g1 : NodeD := { mkNode "g1" .ifelse ["c1"] [] with targets := [.node "n6", .node "n3"] }
+    let g25 : NodeD := { mkNode "g25" .ifelse ["c2"] [] with targets := [.node "n6", .end_] }
+    let b : BuildInput :=
+      { nodes := [g1, g25, mkNode "n3" .fn ["x"] ["v5"], mkNode "n6" .fn ["y"] ["v7"],
+          mkNode "n8" .fn ["v5"] ["v10"], mkNode "n21" .fn ["v7"] ["v10"]] }
+    MutexReach b "n8" "n21" ∧ ¬ Mutex b "n8" "n21" := by
+  intro g1 g25 b
+  exact ⟨(isPairMutex_groupsReach_iff "n8" "n21").mp (by decide),
+    fun h => absurd ((isPairMutex_groups_iff "n8" "n21").mpr h) (by decide)⟩
+
+/-- second shape: a node fed by the branch that has a default of its own.  `g` routes to `p` or `q`;
+`p → v`, `m(v = 1) → r`, `q → r`.  `m` is reachable from `p` only, the pre-repair rule put it in the branch
+of `p` and accepted the two producers `m`, `q` of `r` — but `m` starts on its default in a run where `g`
+chose `q`.  The repaired rule leaves `m` out (its only input has a default), the constructor rejects. -/
+theorem default_fed_not_mutex_witness :
+    let g : NodeD := { mkNode "g" .ifelse ["c"] [] with targets := [.node "p", .node "q"] }
+    let m : NodeD := { mkNode "m" .fn ["v"] ["r"] with hasDefault := ["v"], sigDefaults := [("v", .int 1)] }
+    let b : BuildInput := { nodes := [g, mkNode "p" .fn ["x"] ["v"], m, mkNode "q" .fn ["y"] ["r"]] }
+    let adj := rowsAdj (adjRows (nodeNames b) (hasEdge (graphEdges b)))
+    isPairMutex (expandedGroupsReach b.nodes (nodeNames b) adj) "m" "q" = true ∧
+      buildGraphMutexReach b = .ok () ∧ classifyMutexReach b = "ok" ∧
+      isPairMutex (expandedGroups b.nodes (nodeNames b) adj) "m" "q" = false ∧
+      buildGraph b = .error (.outputConflict "r" "m" "q") ∧ classify b = "output_conflict" ∧
+      -- without the default `m` needs the branch of `p` and the graph is accepted
+      buildGraph { nodes := [g, mkNode "p" .fn ["x"] ["v"], mkNode "m" .fn ["v"] ["r"],
+        mkNode "q" .fn ["y"] ["r"]] } = .ok () := by
+  decide
+
+/-- the repair is NOT a pure restriction: the branch of a target always holds the target itself
+(`branch = {target}`), also when the target is reachable from a sibling target — where the pre-repair rule
+counted it out of every branch.  `g` routes to `p` or `q`; `p → r`, `q(r) → r`: the only edge between the
+two producers of `r` carries the contested `r` itself, so they are not ordered; `q` lies below `p`, the
+pre-repair rule had no branch for it and REJECTED the graph; the repaired rule calls the two direct targets
+of one exclusive gate exclusive and ACCEPTS it. -/
+theorem loop_back_branches_now_mutex_witness :
+    let g : NodeD := { mkNode "g" .ifelse ["c"] [] with targets := [.node "p", .node "q"] }
+    let b : BuildInput := { nodes := [g, mkNode "p" .fn ["x"] ["r"], mkNode "q" .fn ["r"] ["r"]] }
+    let adj := rowsAdj (adjRows (nodeNames b) (hasEdge (graphEdges b)))
+    graphEdges b = [⟨"p", "q", .data, ["r"]⟩, ⟨"g", "p", .control, []⟩, ⟨"g", "q", .control, []⟩] ∧
+      isPairMutex (expandedGroupsReach b.nodes (nodeNames b) adj) "p" "q" = false ∧
+      buildGraphMutexReach b = .error (.outputConflict "r" "p" "q") ∧
+      classifyMutexReach b = "output_conflict" ∧
+      isPairMutex (expandedGroups b.nodes (nodeNames b) adj) "p" "q" = true ∧
+      buildGraph b = .ok () ∧ classify b = "ok" := by
+  intro g b adj
+  exact ⟨rfl, by decide⟩
+
+/-- … in the vocabulary of the specification: `Mutex` without `MutexReach`, and the side condition of
+`mutex_was_mutex` fails on that graph -/
+theorem loop_back_branches_now_mutex_spec :
+    let g : NodeD := { mkNode "g" .ifelse ["c"] [] with targets := [.node "p", .node "q"] }
+    let b : BuildInput := { nodes := [g, mkNode "p" .fn ["x"] ["r"], mkNode "q" .fn ["r"] ["r"]] }
+    Mutex b "p" "q" ∧ ¬ MutexReach b "p" "q" ∧ ¬ TargetsApart b := by
+  intro g b
+  have hm : Mutex b "p" "q" := (isPairMutex_groups_iff "p" "q").mp (by decide)
+  have hr : ¬ MutexReach b "p" "q" :=
+    fun h => absurd ((isPairMutex_groupsReach_iff "p" "q").mpr h) (by decide)
+  exact ⟨hm, hr, fun hap => hr (hm.mutexReach hap)⟩
 
 /-- every node of an accepted graph declares pairwise different output names -/
 theorem outputs_distinct {b : BuildInput} (w : WellFormed b) {nd : NodeD} (h : nd ∈ b.nodes) : nd.outputs.Nodup :=
